@@ -44,20 +44,44 @@ package errutil
 //@   ensures err == nil ==> result == nil
 //@   ensures err != nil ==> typeis(result, *withPrefix) && result.(*withPrefix).cause == err
 
+//@ type leafError invariant[C03] rsafe(self.msg)
+//@ type withPrefix invariant[C03] rsafe(self.prefix)
+//@ type withNewMessage invariant[C03] rsafe(self.message)
+
+// C03: what the encoders put into the payload that the peer's decoder will CAST to a redactable
+// string keeps its PII inside markers (this is what the decoders' requires[C03] stand on)
+//@ func encodeLeaf
+//@   props C03
+//@   requires typeis(err, *leafError)
+//@   ensures[C03] typeis(result2, *errorspb.StringPayload) && rsafe(result2.(*errorspb.StringPayload).Msg)
+
+//@ func encodeWithPrefix
+//@   props C03
+//@   requires typeis(err, *withPrefix)
+//@   ensures[C03] typeis(result2, *errorspb.StringPayload) && rsafe(result2.(*errorspb.StringPayload).Msg)
+
+//@ func encodeWithNewMessage
+//@   props C03
+//@   requires typeis(err, *withNewMessage)
+//@   ensures[C03] typeis(result2, *errorspb.StringPayload) && rsafe(result2.(*errorspb.StringPayload).Msg)
+
 //@ func decodeLeaf
-//@   props C05 C01
+//@   props C05 C01 C03
+//@   requires[C03] typeis(payload, *errorspb.StringPayload) ==> rsafe(payload.(*errorspb.StringPayload).Msg)
 //@   ensures !typeis(payload, *errorspb.StringPayload) ==> result == nil
 //@   ensures typeis(payload, *errorspb.StringPayload) ==> typeis(result, *leafError) && result.(*leafError).msg == payload.(*errorspb.StringPayload).Msg
 
 //@ func decodeWithPrefix
-//@   props C05 C01
+//@   props C05 C01 C03
 //@   requires cause != nil
+//@   requires[C03] typeis(payload, *errorspb.StringPayload) ==> rsafe(payload.(*errorspb.StringPayload).Msg)
 //@   ensures !typeis(payload, *errorspb.StringPayload) ==> result == nil
 //@   ensures typeis(payload, *errorspb.StringPayload) ==> typeis(result, *withPrefix) && result.(*withPrefix).cause == cause && result.(*withPrefix).prefix == payload.(*errorspb.StringPayload).Msg
 
 //@ func decodeWithNewMessage
-//@   props C05 C01
+//@   props C05 C01 C03
 //@   requires cause != nil
+//@   requires[C03] typeis(payload, *errorspb.StringPayload) ==> rsafe(payload.(*errorspb.StringPayload).Msg)
 //@   ensures !typeis(payload, *errorspb.StringPayload) ==> result == nil
 //@   ensures typeis(payload, *errorspb.StringPayload) ==> typeis(result, *withNewMessage) && result.(*withNewMessage).cause == cause && result.(*withNewMessage).message == payload.(*errorspb.StringPayload).Msg
 
